@@ -2,6 +2,7 @@ import RaftVerif.Spec.CommitSpec
 import RaftVerif.Proofs.AECommit
 import RaftVerif.Proofs.Leader
 import RaftVerif.Proofs.Replicate
+import RaftVerif.Proofs.PipelineHeld
 /-! # C05 — commit only on a majority of voters, current-term rule, monotone
 
 Property theorems (bookkeeping half: `commitment.go`; the follower side and the global side are in
